@@ -38,6 +38,17 @@ var c02Pool = []string{
 	// a custom regex on a variable that carries the name of a global variable: the custom regex rules
 	`/o/{num:\d{3}}`,
 	`/tg/{all:[a-z]+}/feed`,
+	// variable regexes made of several top-level groups / a top-level alternation
+	`/rp/{p:(?:\d{4})-(?:0[1-9]|1[0-2])}`,
+	`/tk/{t:(?:[a-z]+)(?:\d+)}/k`,
+	`/pic/{kind:(?:jpe?g)|(?:png)}/x`,
+}
+
+// values tried in addition to c02Values for one pattern
+var c02Extra = map[string][]string{
+	`/rp/{p:(?:\d{4})-(?:0[1-9]|1[0-2])}`: {"2024-07", "2024-13", "2024-1", "024-07", "2024-07x"},
+	`/tk/{t:(?:[a-z]+)(?:\d+)}/k`:          {"abc123", "a1", "abc", "1a", "ab12c"},
+	`/pic/{kind:(?:jpe?g)|(?:png)}/x`:       {"jpg", "jpeg", "png", "jpgXYZ", "pn", "xpng"},
 }
 
 var c02Values = []string{"1", "20", "ab", "a.b", "é", "a b", "0", "a/b", "", "2024", "x.css", "1.0", "007", "123"}
@@ -98,6 +109,9 @@ func c02Paths(pattern string) []string {
 					return
 				}
 				for _, v := range c02Values {
+					rec(i+1, cur+v)
+				}
+				for _, v := range c02Extra[pattern] {
 					rec(i+1, cur+v)
 				}
 			}
@@ -362,7 +376,7 @@ func c02Redispatch(c c02Case, st *fw.Stats, add func(sig, msg string), viols *[]
 var c02Spec = fw.Spec[c02Case]{
 	ID:    "C02",
 	Level: "model_checking",
-	Rule: "complete product per pattern: every ordered pair (p,q) of candidate paths (all value tuples over 12 values substituted at every optional depth, plus perturbations) requested as the history p,q,p,q on routers with cache off / capacity 1 / capacity 2, via Match and ServeHTTP; " +
+	Rule: "complete product per pattern (20 patterns): every ordered pair (p,q) of candidate paths (all value tuples over 12 values substituted at every optional depth, plus perturbations) requested as the history p,q,p,q on routers with cache off / capacity 1 / capacity 2, via Match and ServeHTTP; " +
 		"oracle = back-tracking reference matcher (all decompositions); plus every matching path re-dispatched by its handler (HandleContext) to a static, a dynamic and an optional route, whose handlers must see exactly their own parameters; non-trivial = a request whose path matches the dynamic pattern",
 	Assume: []string{"values and patterns are drawn from the stated alphabets", "handlers treat Params as read-only"},
 	Bounds: func(tier string) map[string]any {
